@@ -329,23 +329,48 @@ def oracle(ctx, cases, impl):
     return fails, stats
 
 
+TRIVIAL = ("t", "n:Artist", "a")
+
+
+def reductions(t):
+    """Every script obtained from t by one simplifying step."""
+    out = []
+    if t[0] in "TtEA":
+        if t != TRIVIAL:
+            out.append(TRIVIAL)
+            if t[0] == "T" and t[3] not in ("", "a"):
+                out += [("T", t[1], t[2], "a"), ("T", t[1], t[2], t[3][: len(t[3]) // 2]), ("T", t[1], t[2], t[3][len(t[3]) // 2:])]
+            if t[0] == "t" and t[2] not in ("", "a"):
+                out += [("t", t[1], "a"), ("t", t[1], t[2][: len(t[2]) // 2]), ("t", t[1], t[2][len(t[2]) // 2:])]
+        return out
+    out += list(t[1:])                                   # hoist a child
+    for i in range(1, len(t)):
+        for r in reductions(t[i]):
+            out.append(t[:i] + (r,) + t[i + 1:])
+    return out
+
+
 def shrink(ctx, failure):
-    """Try the leaves of a failing tree on their own: the smallest script that still fails is reported."""
+    """Greedy structural shrinking (hoist a child, replace a leaf by a trivial one, halve a value): the
+    smallest script that still fails in the same class is reported."""
     _, how, tree = failure.case.split(" ")
-    t = dec(tree)
-    cands = [f"filter find {enc(x)}" for x in leaves(t)]
-    cands = [c for c in dict.fromkeys(cands) if c != failure.case]
-    if not cands:
-        return failure
-    try:
-        fs, _ = oracle(ctx, cands, ctx.run_impl(cands))
-    except Exception:
-        return failure
-    fs = [f for f in fs if f.klass == failure.klass]
-    if fs:
-        fs[0].extra = {"shrunk_from": failure.case}
-        return fs[0]
-    return failure
+    best, cur = failure, dec(tree)
+    for _ in range(40):
+        cands = list(dict.fromkeys(f"filter {how} {enc(x)}" for x in reductions(cur)))[:600]
+        if not cands:
+            break
+        try:
+            fs, _ = oracle(ctx, cands, ctx.run_impl(cands))
+        except Exception:
+            break
+        fs = [f for f in fs if f.klass == failure.klass and len(f.case) < len(best.case)]
+        if not fs:
+            break
+        best = min(fs, key=lambda f: len(f.case))
+        cur = dec(best.case.split(" ")[2])
+    if best is not failure:
+        best.extra = {"shrunk_from": failure.case}
+    return best
 
 
 def run(ctx, only=None):
